@@ -360,6 +360,9 @@ def run(ctx):
     for k in range(ctx.share(ctx.pick(2000, 100000))):
         check_case(recipe.gen_doc(rng, max_changes=4, max_files=3,
                                   enc_p=0.45), obs, 'general')
+    for k in range(ctx.share(ctx.pick(400, 8000))):
+        check_stats_ignore_containers(obs, rng)
+        check_diff_never_inherits(obs, rng)
     for k in range(ctx.share(ctx.pick(3000, 80000))):
         m = mismatch_file(rng)
         if m is not None:
@@ -372,6 +375,88 @@ def run(ctx):
                                         enc_p=0.5))[0]
     common.reader_concurrency_pass(ctx, gen_data,
                                    ctx.share(ctx.pick(120, 3000)))
+
+
+def check_stats_ignore_containers(obs, rng):
+    """Statistics read a diff through its OWN encoding option only: the
+    same diff bytes and diff options under different main / change / file
+    encodings must give the same file statistics (metamorphic)."""
+    from pydiffx.dom import DiffX
+    hunk = '--- a\n+++ b\n@@ -1,2 +1,3 @@\n c\n-old\n+new\n+more\n'
+    payload_codec = rng.choice(['utf-16', 'utf-32', 'utf-16-le', 'cp037',
+                                'utf-8'])
+    payload = hunk.encode(payload_codec)
+    declared = rng.choice([None, 'utf-8', 'ascii', 'x-no-such-codec',
+                           payload_codec, 'latin-1'])
+    results = []
+    scopes = [('utf-8', None, None), ('utf-8', None, payload_codec),
+              ('utf-8', payload_codec, None), (payload_codec, None, None),
+              ('latin-1', 'utf-16', 'utf-32')]
+    for main, cenc, fenc in scopes:
+        try:
+            t = DiffX(encoding=main)
+            c = t.add_change(**({'encoding': cenc} if cenc else {}))
+            kw = {'meta': {'path': 'x'}, 'diff': payload}
+            if fenc:
+                kw['encoding'] = fenc
+            if declared:
+                kw['diff_encoding'] = declared
+            f = c.add_file(**kw)
+            t.generate_stats()
+            results.append(f.meta.get('stats'))
+        except Exception as e:
+            results.append('raised:%s' % type(e).__name__)
+    obs.count('stats_container_independence_checked')
+    obs.case(('stats_scope', payload_codec, declared), nontrivial=True)
+    if any(not common.strict_equal(r, results[0]) for r in results[1:]):
+        obs.violation('dom_stats_scope:statistics_depend_on_container_'
+                      'encoding', {'stats_scope': [payload_codec, declared]},
+                      {'scopes': scopes, 'stats': results})
+
+
+WIDE = ['utf-16', 'utf-32', 'utf-16-be', 'utf-32-le', 'cp037', 'cp500',
+        'utf-16-le']
+
+
+def check_diff_never_inherits(obs, rng):
+    """A diff section that declares neither encoding nor line_endings (legal;
+    other producers write them) under containers whose encodings are not
+    ASCII compatible: its bytes are framed, split and returned as they are -
+    nothing of the scope may be used to find or check its newline."""
+    main = rng.choice(WIDE + ['utf-8'])
+    cenc = rng.choice([None] + WIDE)
+    fenc = rng.choice([None] + WIDE)
+    eff = fenc or cenc or main
+    nl = rng.choice([b'\n', b'\r\n'])
+    diff = nl.join([b'--- a', b'+++ b', b'@@ -1 +1 @@', b'-a', b'+b', b''])
+    if rng.random() < 0.3:
+        diff = diff[:-len(nl)] + b'x' + nl
+    meta = '{}\n'.encode(eff)[len(''.encode(eff)):]
+    eff2 = cenc or main          # the second file declares nothing
+    meta2 = '{}\n'.encode(eff2)[len(''.encode(eff2)):]
+    data = (b'#diffx: encoding=%s, version=1.0\n' % main.encode() +
+            b'#.change:' + (b' encoding=%s' % cenc.encode() if cenc else b'')
+            + b'\n#..file:' + (b' encoding=%s' % fenc.encode() if fenc
+                               else b'') + b'\n' +
+            b'#...meta: format=json, length=%d\n' % len(meta) + meta +
+            b'#...diff: length=%d\n' % len(diff) + diff +
+            b'#..file:\n#...meta: format=json, length=%d\n' % len(meta2) +
+            meta2)
+    case = {'diff_scope_file': data}
+    obs.case(data, nontrivial=True)
+    obs.count('bare_diffs_under_wide_scopes')
+    recs, exc, _ = common.read_records(data)
+    if exc is not None:
+        obs.violation('reader_scope:bare_diff_read_through_container_'
+                      'encoding:%s' % common.exc_mechanism(exc), case,
+                      repr(exc)[:200])
+        return
+    got = recs[4] if len(recs) == 7 else None
+    if got is None or got.get('diff') != diff or \
+            got.get('options') != {'length': len(diff)}:
+        obs.violation('reader_scope:bare_diff_altered', case,
+                      {'records': len(recs),
+                       'got': repr(got)[:300] if got else None})
 
 
 # --------------------------------------------------- payload / codec mismatch
@@ -492,6 +577,18 @@ def check_payload_mismatch(data, idx, eff, payload, obs):
 
 
 def replay(case, obs):
+    if 'diff_scope_file' in case:
+        recs, exc, _ = common.read_records(case['diff_scope_file'])
+        if exc is not None:
+            obs.violation('reader_scope:bare_diff_read_through_container_'
+                          'encoding:%s' % common.exc_mechanism(exc), case,
+                          repr(exc)[:200])
+        return
+    if 'stats_scope' in case:
+        import random
+        for k in range(200):
+            check_stats_ignore_containers(obs, random.Random(k))
+        return
     if 'mismatch_file' in case:
         return check_payload_mismatch(case['mismatch_file'], case['index'],
                                       case['effective'], case['payload'], obs)
